@@ -637,6 +637,22 @@ func (se *SpecEnv) evalCall(x *ECall) Value {
 	case "strLower":
 		se.e.ctx.declFun("str.lower", []string{"Str"}, "Str")
 		return Value{T: app("str.lower", se.eval(x.Args[0]).T), Sort: "Str", GoT: types.Typ[types.String]}
+	case "runesStr":
+		// runesStr(s, lo, hi): the Go value string(s[lo:hi]) for a []rune s, as the executor models it
+		sl := se.eval(x.Args[0])
+		lo := se.eval(x.Args[1])
+		hi := se.eval(x.Args[2])
+		if sl.Sort != "Slice" {
+			sfail("runesStr expects a slice")
+		}
+		se.e.ctx.declFun("runes.str", []string{arr("Int", "Int"), "Int", "Int"}, "Str")
+		name := elemMapNameT(types.Typ[types.Int32])
+		se.e.noteMapType(name, types.Typ[types.Int32], "elem")
+		m := se.e.heapGet(se.s, name, arr("Int", arr("Int", "Int")))
+		return Value{T: app("runes.str", sel2(m, sliceBase(sl.T)), add(sliceOff(sl.T), lo.T), sub(hi.T, lo.T)), Sort: "Str", GoT: types.Typ[types.String]}
+	case "strTrim":
+		se.e.ctx.declFun("strim", []string{"Str"}, "Str")
+		return Value{T: app("strim", se.eval(x.Args[0]).T), Sort: "Str", GoT: types.Typ[types.String]}
 	case "isnil":
 		v := se.eval(x.Args[0])
 		return boolV(eq(v.T, nilOf(v).T))
